@@ -126,10 +126,15 @@ def keywordOf : DTag → String
   | .bool => "bool" | .i8 => "i8 byte" | .double => "double" | .i16 => "i16" | .i32 => "i32"
   | .i64 => "i64" | .string => "string" | .binary => "binary" | .strct => "struct" | .map => "map"
 
-def isInfix (p s : List Char) : Bool :=
-  match s with
-  | [] => p.isEmpty
-  | _ :: r => p.isPrefixOf s || isInfix p r
+/-- the keyword(s) of a tag, as the annotation parser matches them: whole tokens (until D18 the code
+    asked `strings.Contains(keywordTab[tag], token)`: `i6`, `6`, `t`, `str` were keywords too) -/
+def keywordsOf : DTag → List (List Char)
+  | .bool => ["bool".toList] | .i8 => ["i8".toList, "byte".toList] | .double => ["double".toList]
+  | .i16 => ["i16".toList] | .i32 => ["i32".toList] | .i64 => ["i64".toList]
+  | .string => ["string".toList] | .binary => ["binary".toList] | .strct => ["struct".toList]
+  | .map => ["map".toList]
+
+def isKeyword (tag : DTag) (tv : List Char) : Bool := (keywordsOf tag).contains tv
 
 /-- the parsed type together with what the cache key / later checks need -/
 structure PTy where
@@ -184,13 +189,13 @@ def baseOfTag : DTag → Ty
   | .i32 => .base .i32 | .i64 => .base .i64 | .string => .base .string | .binary => .base .binary
   | _ => .base .bool
 
-/-- match the annotation token against the kind's keyword (`strings.Contains`) or the type's
+/-- match the annotation token against the kind's keyword(s) (`isKeyword`) or the type's
     own name (`doMatchStruct`); returns the rest and whether the type became an enum. -/
 def matchAnnot (vt : GoTy) (tag : DTag) (def_ : List Char) : Option (List Char × Bool) :=
   match readToken def_ false with
   | none => none
   | some (tv, rest) =>
-    if isInfix tv (keywordOf tag).toList then some (rest, false)
+    if isKeyword tag tv then some (rest, false)
     else match tv with
       | c :: _ =>
         if !isIdent0 c then none else
@@ -294,8 +299,15 @@ def doParseType : GoTy → Bool → List Char → Bool → Option (Ty × List Ch
     | some r0 =>
       parseMapBody hasDef (fun r1 => doParseType k hasDef r1 true) (fun r3 => doParseType v hasDef r3 true) r0
 
+/-- `ParseType`: the type, provided the whole annotation was consumed (D19: text after a complete
+    annotation used to be ignored) -/
 def parseType (vt : GoTy) (def_ : List Char) : Option Ty :=
-  (doParseType vt (!def_.isEmpty) def_ true).map (·.1)
+  match doParseType vt (!def_.isEmpty) def_ true with
+  | none => none
+  | some (t, r) =>
+    match readToken r true with
+    | some ([], _) => some t
+    | _ => none
 
 /-! ### DoResolveFields -/
 
@@ -423,6 +435,8 @@ def argOutcome (kind : String) : String :=
   | "ptr" => "ok:8 ok:8 ok:1"              -- &S{A int32}: field header + 4 + STOP
   | "struct" => "ok:8 ok:8 err"            -- by value: encodable, not decodable
   | "nilptr" => "ok:1 ok:1 err"            -- typed nil *S: written as a lone STOP
+  | "rectype" => "panic:ordinary err err"  -- a self-referential map type: rejected like any unsupported one
+  | "recnested" => "panic:ordinary err err"
   | "decstruct" => "err"                   -- DecodeObject alone on a struct by value, before / after use
   | _ => "panic:ordinary err err"          -- nil, int, *int, **S, slice, map, string, func, chan
 
